@@ -19,22 +19,32 @@ def run(seed, tier):
     return verdict, classes
 
 
+def one(meta_path):
+    d = os.path.dirname(meta_path)
+    meta = json.load(open(meta_path))
+    v, cl = run(d, "quick")
+    meta["detected_by"] = {"quick": {"verdict": v, "violation_classes": [c for c, _ in cl[:4]]}}
+    if v != "DETECTED":
+        v2, cl2 = run(d, "thorough")
+        meta["detected_by"]["thorough"] = {"verdict": v2, "violation_classes": [c for c, _ in cl2[:4]]}
+    json.dump(meta, open(meta_path, "w"), indent=1)
+    print(os.path.basename(d), meta["detected_by"], flush=True)
+    return meta
+
+
 def main():
-    only = sys.argv[1:]
-    rows = []
-    for meta_path in sorted(glob.glob(os.path.join(VERIF, "seeded", "*", "meta.json"))):
-        d = os.path.dirname(meta_path)
-        name = os.path.basename(d)
-        meta = json.load(open(meta_path))
-        if not only or name in only or meta["property"] in only:
-            v, cl = run(d, "quick")
-            meta["detected_by"] = {"quick": {"verdict": v, "violation_classes": [c for c, _ in cl[:4]]}}
-            if v != "DETECTED":
-                v2, cl2 = run(d, "thorough")
-                meta["detected_by"]["thorough"] = {"verdict": v2, "violation_classes": [c for c, _ in cl2[:4]]}
-            json.dump(meta, open(meta_path, "w"), indent=1)
-            print(name, meta["detected_by"])
-        rows.append(meta)
+    """seed_matrix.py [--jobs N] [names or property ids ...]"""
+    args = sys.argv[1:]
+    jobs = 1
+    if args[:1] == ["--jobs"]:
+        jobs, args = int(args[1]), args[2:]
+    only = args
+    paths = sorted(glob.glob(os.path.join(VERIF, "seeded", "*", "meta.json")))
+    todo = [p for p in paths if not only or os.path.basename(os.path.dirname(p)) in only or json.load(open(p))["property"] in only]
+    from concurrent.futures import ThreadPoolExecutor
+    with ThreadPoolExecutor(jobs) as ex:
+        list(ex.map(one, todo))
+    rows = [json.load(open(p)) for p in paths]
     with open(os.path.join(VERIF, "seeded", "README.md"), "w") as f:
         f.write("# Seeded breaking changes\n\nEach directory holds `patch.diff` (apply with `git -C /repo apply`), `demo.py` (exit 1 with the patch, 0 without) "
                 "and `meta.json`.  All were written by independent sub-agents that saw only the property text and a scratch worktree; each was "
